@@ -107,7 +107,7 @@ fn json_all(tape: &TextTape, obs: &mut Obs, case: &str) {
 }
 
 fn seeds() -> Vec<Ty> {
-    ["any", "ign", "map(any)", "map(ign)", "seq(any)", "st(a:i64;b:str;name:opt(str);core:seq(str);flags:map(any);x:f64;y:bool)", "st(a:st(a:i64);id:prop(str);type:en(a;b))", "str", "i64"]
+    ["any", "ign", "map(any)", "map(ign)", "seq(any)", "st(a:i64;b:str;name:opt(str);core:seq(str);flags:map(any);x:f64;y:bool)", "st(a:st(a:i64);id:prop(str);type:en(a;b))", "st(a:tup(i64;i64);b:tup(str;any;any);core:tup(any))", "tup(any;any)", "str", "i64"]
         .iter().map(|s| parse_ty(s).unwrap()).collect()
 }
 
